@@ -480,6 +480,7 @@ func scnLife(ctx *check.JobCtx) {
 	p.Ops = int(ctx.ArgInt("ops", int64(p.Ops)))
 	p.MaxHeight = ctx.ArgInt("maxh", p.MaxHeight)
 	p.DrainCap = ctx.ArgInt("draincap", 13000)
+	p.DrainAll = ctx.Arg("drainall", "") == "1" || ((ctx.Job.Prop == "C06" || ctx.Job.Prop == "C04" || ctx.Job.Prop == "C07") && ctx.Job.Seed%2 == 0)
 	if ctx.Arg("bigtimeout", "") == "1" {
 		p.BigTimeout = true
 	}
